@@ -261,6 +261,9 @@ StepClause(st) ==
 ClsOnly(Ms) == \A m \in Ms : (\A p \in DOMAIN m.pos : m.pos[p].k = "cls")
                              /\ (\A p \in DOMAIN m.kwt : m.kwt[p].k = "cls")
 
+DepOnly(Ms) == \A m \in Ms : (\A p \in DOMAIN m.pos : m.pos[p].k \in {"cls", "dep", "lit"})
+                             /\ (\A p \in DOMAIN m.kwt : m.kwt[p].k \in {"cls", "dep", "lit"})
+
 KindMatches(Ms, o, k, call) ==
   \/ o.kind = k
   \/ o.kind = "nomethod" /\ k = "rejected" /\ ~ShapeKnown(Ms, call)
@@ -330,12 +333,15 @@ Consume ==
   /\ LET st == Case.steps[l]
          c  == StepClause(st)
          co == ClsOnly(MOf(st))
-         ic == IF co THEN ImplConsistent(st) ELSE TRUE
+         \* value worlds under the context sweep (C06): the Impl layer of value dispatch must predict every context
+         ic == IF co THEN ImplConsistent(st)
+               ELSE IF "C06" \in Props /\ DepOnly(MOf(st)) THEN ImplValueConsistent(st) ELSE TRUE
          \* outside class-only worlds the signature alone decides (no Impl prediction available);
          \* it needs at least two supplied positions there (the cross-position form of the artefact)
          \* the level artefact is repaired; the only signature left is the rank artefact of dependent methods (C10)
          \* ... and only when the code did exactly what the Impl layer of value dispatch predicts
-         ks == "C10" \in Props /\ KF_pull_rank(W, MOf(st), st.call) /\ (c = "" \/ ImplValueConsistent(st))
+         ks == \/ "C10" \in Props /\ KF_pull_rank(W, MOf(st), st.call) /\ (c = "" \/ ImplValueConsistent(st))
+               \/ "C06" \in Props /\ ~co /\ DepOnly(MOf(st)) /\ KF_pull_rank(W, MOf(st), st.call)
      IN
        /\ bad' = IF c # ""
                  THEN bad \o (IF bad = "" THEN "" ELSE ",") \o c \o "@" \o ToString(l) \o "#"
